@@ -155,3 +155,21 @@ def replay(data):
     bad = data['signature'] in hits
     print('VIOLATES' if bad else 'ok (signature not reproduced)')
     return 1 if bad else 0
+
+
+def timer_jobs(props, quick):
+    '''engines with a weekly event, wall clock one hour before its moment:
+    the timer fires as an explorer event in every interleaving'''
+    from . import aegen
+    A = aegen.alg
+    ev = [{'dow': 2, 'time': [3, 0, 0]}]       # 2024-01-10 is a Wednesday
+    E = {
+        'timer-leaf': [A('ta', 'a'), A('tb', 'b', inputs=[('ta', 'a', None, None)], ev=ev)],
+        'timer-root': [A('ta', 'a', ev=ev), A('tb', 'b', inputs=[('ta', 'a', None, None)])],
+        'timer-analysis': [A('ta', 'a'), A('tz', 'z', 'analysis', inputs=[('ta', 'a', 's', None)], ev=ev)],
+    }
+    out = []
+    for name, algs in E.items():
+        out.append((name, {'style': 'legacy', 'algs': algs}, ['A'], props,
+                    {'reqs': 2, 'clock_at': '2024-01-10T02:00:00+00:00', 'max_timers': 2}))
+    return out
